@@ -17,7 +17,7 @@ from common import chunks, crash_signature, panic_signature, rng_for, shape_deco
 
 LEVEL = "exploration"
 
-NAMES = ["a", "b", "c", "d", "e"]
+NAMES = ["a", "b", "c", "d", "e", "A", "D"]  # A / D: names that differ from another bound name in letter case only
 FN = "f"
 
 # precedence levels
@@ -448,7 +448,7 @@ def _walk(x, acc, pairs, parent):
 # known parser defects: classified by a syntactic feature of the rejected text so that the signature does
 # not depend on the random tree around it
 FEATURES = [
-    ("bracket-before-dotted-name-of-3-segments", re.compile(r"[\(\[](\s|/\*.*?\*/|//[^\n]*\n)*[a-z]\w*(\s|/\*.*?\*/)*\.(\s|/\*.*?\*/)*\w+(\s|/\*.*?\*/)*\.(\s|/\*.*?\*/)*\w+", re.S)),
+    ("bracket-before-dotted-name-of-3-segments", re.compile(r"[\(\[](\s|/\*.*?\*/|//[^\n]*\n)*[A-Za-z]\w*(\s|/\*.*?\*/)*\.(\s|/\*.*?\*/)*\w+(\s|/\*.*?\*/)*\.(\s|/\*.*?\*/)*\w+", re.S)),
     ("two-comments-in-a-row", re.compile(r"(/\*([^*]|\*(?!/))*\*/|//[^\n]*\n)\s*(/\*|//)")),
 ]
 
